@@ -182,7 +182,19 @@ def wait_for(pred, timeout=10.0, step=0.01):
     return bool(pred())
 
 
-def classify(cl, size, salt, maxver=40):
+def wait_port(port, timeout=20.0):
+    t0 = time.time()
+    while time.time() - t0 < timeout:
+        try:
+            s = socket.create_connection(("127.0.0.1", port), timeout=0.5)
+            s.close()
+            return True
+        except OSError:
+            time.sleep(0.1)
+    raise lab.LabError("port %d did not open" % port)
+
+
+def classify(cl, size, salt, maxver=60, status=200):
     """canonical outcome of one client: F<v> complete copy of origin version v; T<v> visibly incomplete message whose
     body is a proper prefix of version v (T0: no body byte); E<status> complete non-200 reply; X... anything else
     (a body that is not what one origin response carried, or a short body presented as complete)"""
@@ -191,7 +203,7 @@ def classify(cl, size, salt, maxver=40):
     r = cl.resp()
     if r is None or r.status is None:
         return "N" if not cl.raw else "Xgarbage"
-    if r.status != 200:
+    if r.status != status:
         return "E%d" % r.status if r.complete else "Xerr-incomplete%d" % r.status
     body = r.body
     ver = None
@@ -206,5 +218,5 @@ def classify(cl, size, salt, maxver=40):
     if r.complete:
         return "F%d" % ver if len(body) == size else "Xshort%d:%d" % (ver, len(body))
     if len(body) >= size:
-        return "F%d" % ver if r.framing == "chunked" and False else "U%d" % ver   # all bytes but no end marker
+        return "T%d" % ver    # all bytes but no end-of-message marker: still visibly incomplete
     return "T%d" % ver
